@@ -54,6 +54,15 @@ class Sent(object):
 
 
 _D = Sent('<default>')
+# context values an endpoint may legitimately return that are falsy / None: a tag of the model, a plain Python value here
+FALSY = {'NONE': None, 'ZERO': 0, 'EMPTYSTR': '', 'EMPTYDICT': {}, 'FALSE': False}
+
+
+def falsy_tag(v):
+    for tag, x in FALSY.items():
+        if type(v) is type(x) and v == x:
+            return tag
+    return None
 
 
 def params_src(sig, leading=()):
@@ -101,6 +110,8 @@ class Lab(object):
         if isinstance(v, Sent):
             ok = self.reg.get(v.tag) is v
             return v.tag if ok else v.tag + '!not-the-registered-object'
+        if name == 'context' and falsy_tag(v) is not None:
+            return falsy_tag(v)
         if name == 'next' and callable(v):
             return 'NEXT'
         if isinstance(v, BaseRequest):
@@ -129,6 +140,8 @@ class Lab(object):
             return ['resp', ret.get_data(as_text=True)]
         if isinstance(ret, Sent):
             return ['ctx', ret.tag]
+        if falsy_tag(ret) is not None:
+            return ['ctx', falsy_tag(ret)]
         return ['ctx', 'OTHER:' + repr(ret)[:40]]
 
     def exc(self, name):
@@ -199,6 +212,10 @@ class Lab(object):
         if s[0] == 'resp':
             self.rec.append(['leave', 'endpoint', ['resp', s[1]]])
             return Response(s[1])
+        if s[1] in FALSY:
+            # the endpoint's result is None / 0 / '' / {} / False: a context like any other, the render layers run
+            self.rec.append(['leave', 'endpoint', ['ctx', s[1]]])
+            return type(FALSY[s[1]])() if FALSY[s[1]] is not None else None
         c = Sent(s[1])
         self.reg[s[1]] = c
         self.rec.append(['leave', 'endpoint', ['ctx', s[1]]])
@@ -409,9 +426,13 @@ def impl(cfg):
     c = lab.build()
     if c != 'ok':
         return {'construct': c}
-    route_path = '/r/k' + ''.join('/%s' % ('0' if u in cfg.get('url_int0', ()) else 'U:' + u) for u in cfg['url'])    # a multi binding takes exactly one segment here
+    # 'dslash': the client repeats the separator in front of every single-valued bound segment (the route is a leaf:
+    # served as is; what a multi binding makes of empty segments is C05's subject, see O3)
+    sep = '//' if cfg.get('dslash') else '/'
+    route_path = '/r/k' + ''.join(('/' if u in cfg.get('url_multi', ()) else sep) + ('0' if u in cfg.get('url_int0', ()) else 'U:' + u)
+                                  for u in cfg['url'])    # a multi binding takes exactly one segment here
     if cfg.get('outer'):
-        route_path = (''.join('/U:%s' % u for u in cfg['outer']['prefix_url']) or '/pre') + route_path
+        route_path = (''.join(sep + 'U:%s' % u for u in cfg['outer']['prefix_url']) or '/pre') + route_path
     obs = {'construct': 'ok'}
     for name, path in (('null', '/zzz/nomatch'), ('route', route_path)):
         o1, t1, d1 = lab.request(path)
@@ -599,6 +620,8 @@ def _gen_config(rng, defect=None, posonly=False, embed=None):
               or d in BUILTINS4 + ['context', 'next']):
         del cfg['decoy']                  # the decoy pattern would bind one name twice: an invalid pattern, not this lab's subject
     cfg['scripts'] = gen_scripts(rng, cfg)
+    if rng.random() < 0.3:
+        cfg['dslash'] = True
     if rng.random() < 0.25:
         # one letter of the alphabet becomes a name the framework's generated code uses itself
         cfg = rename(cfg, rng.choice(ALPHA), rng.choice(EXOTIC))
@@ -839,7 +862,7 @@ def gen_scripts(rng, cfg):
         for f, ph in (('request', 'q'), ('endpoint', 'e'), ('render', 'r')):
             if m.get(f) is not None:
                 funcs.append((ph, m['inst']))
-    sc = {'mw': [], 'ep': ['ctx', 'CTX'], 'rn': ['resp', 'RN'],
+    sc = {'mw': [], 'ep': ['ctx', rng.choice(['CTX', 'CTX', 'CTX'] + sorted(FALSY))], 'rn': ['resp', 'RN'],
           'positional': [m['inst'] for m in all_specs(cfg) if rng.random() < 0.4]}
     x = rng.random()
     if x < 0.45:
